@@ -115,6 +115,11 @@ Theorem surface_flags_exactly_boundary nx ny nz i j k :
   (0 <= i <= Z.of_nat nx)%Z -> (0 <= j <= Z.of_nat ny)%Z -> (0 <= k <= Z.of_nat nz)%Z ->
   Surface.flagged nx ny nz i j k <-> Surface.on_boundary nx ny nz i j k.
 Proof. exact (Surface.flagged_iff_boundary nx ny nz i j k). Qed.
+Theorem surface_interior_not_flagged_from_lower_bound nx ny nz i j k (Es : R) :
+  (1 <= nx)%nat -> (1 <= ny)%nat -> (1 <= nz)%nat ->
+  (0 < i < Z.of_nat nx)%Z -> (0 < j < Z.of_nat ny)%Z -> (0 < k < Z.of_nat nz)%Z ->
+  (INR (Surface.incident nx ny nz i j k) * (PI / 2) <= Es)%R -> ~ (Es < 4 * PI - 1 / 100000)%R.
+Proof. exact (Surface.interior_not_flagged_from_lower_bound nx ny nz i j k Es). Qed.
 Theorem surface_hyp_sat :
   Surface.incident 3 2 2 0 1 1 = 4%nat /\ Surface.incident 3 2 2 1 1 1 = 8%nat /\ Surface.incident 3 2 2 3 2 0 = 1%nat /\ Surface.incident 1 1 1 1 0 1 = 1%nat.
 Proof. exact Surface.flagged_examples. Qed.
@@ -142,3 +147,4 @@ Print Assumptions surface_incident_closed_form.
 Print Assumptions surface_orthogonal_corner_excess.
 Print Assumptions surface_flags_exactly_boundary.
 Print Assumptions surface_hyp_sat.
+Print Assumptions surface_interior_not_flagged_from_lower_bound.
